@@ -274,12 +274,13 @@ func (c *cors) handle(node types.Node, wh http.Header, r *http.Request) {
 	if preflight {
 		// Access-Control-Allow-Methods
 		// 只读取一次节点的请求方法，保证判断与输出的内容是同一时刻的值。
+		// 拒绝与否同样取决于该报头，所以在判断之前就写入 Vary。
+		wh.Add(header.Vary, header.AccessControlRequestMethod)
 		methods := node.Methods()
 		if slices.Index(methods, reqMethod) < 0 {
 			return
 		}
 		wh.Set(header.AccessControlAllowMethods, strings.Join(methods, ", "))
-		wh.Add(header.Vary, header.AccessControlRequestMethod)
 
 		// Access-Control-Allow-Headers
 		if !c.headerIsAllowed(r) {
